@@ -9,6 +9,7 @@
   shared vertex). Lemmas: EG.Lemmas.JoinsWidth1.
 -/
 import EG.Lemmas.JoinsWidth1
+import EG.Model.ThickPolyline
 namespace EG.C19.Joins
 open EG EG.Joins
 
@@ -41,6 +42,14 @@ example : (do
     let j2 ← LineJoin.fromPoints ⟨-5, -4⟩ ⟨-5, -1⟩ ⟨-1, -4⟩ 1 .none
     pure ((ThickSegment.mk j1 j2).intersection (-3))) =
     some (bint (Scanline.newEmpty (-3)) ⟨⟨-5, -4⟩, ⟨-5, -1⟩⟩) := by decide
+
+/-- A one-pixel polyline: `draw` is one `draw_iter` call with `points()`, and `pixels()` is
+`points()` (the `Thin` arm of `StyledPixelsIterator`); the union-of-segments claim about
+`points()` itself is `EG.C19.polyline_points` (Props/C19/Polyline.lean). -/
+theorem one_pixel_polyline_is_points (pl : Polyline) :
+    pixels pl 1 = some (Polyline.points pl) ∧
+    (match drawStyled pl 1 with | some (.drawIter pts) => pts = Polyline.points pl | _ => False) :=
+  ⟨rfl, rfl⟩
 
 -- [V] the one-pixel outline with Inside / Outside alignment (StrokeOffset::Right / Left: `extents` takes the last parallel of one side) is the same three edge lines: carried by correspondence + oracle only
 -- [V] the merge of the three edge scanlines per row (`edge_intersections`: left / right accumulators, `try_extend`) yields exactly the union of the three edge lines' points, in one of the two orientations of each edge: carried by correspondence + oracle only
